@@ -164,7 +164,12 @@ fn both(rep: &mut Rep, func: &str, tpl: &str, vals_: &[(&str, CelValue)], want: 
     expect(rep, func, "literal", &lit, &[], want);
 }
 
-const ALPHA: &[&str] = &["a", "b", "A", "B", "ab", "0", " ", "\t", "é", "É", "İ", "ß", "ς", "Σ", "😀", "e\u{301}", "\u{a0}", "\u{2003}", ".", "*", "aa"];
+// includes every letter whose case mapping crosses the ASCII boundary or changes length: Kelvin sign (-> k), Angstrom
+// sign (-> å), Ohm sign (-> ω), İ (-> i + U+0307), dotless ı (-> I), long s (-> S), ß (-> SS), ﬁ (-> FI), ǅ, ŉ, final sigma
+const ALPHA: &[&str] = &[
+    "a", "b", "A", "B", "ab", "0", " ", "\t", "é", "É", "İ", "ß", "ς", "Σ", "😀", "e\u{301}", "\u{a0}", "\u{2003}", ".", "*", "aa",
+    "i", "I", "k", "K", "s", "S", "f", "\u{212A}", "\u{212B}", "å", "\u{2126}", "ω", "\u{131}", "\u{17F}", "\u{307}", "ﬁ", "ǅ", "ŉ", "σ", "ss", "SS",
+];
 
 fn rstr(rng: &mut Rng, max: usize) -> String {
     let n = rng.below(max + 1);
@@ -172,7 +177,7 @@ fn rstr(rng: &mut Rng, max: usize) -> String {
 }
 
 fn needle(rng: &mut Rng, h: &str) -> String {
-    match rng.below(8) {
+    match rng.below(11) {
         0 => String::new(),
         1 => rng.pick(ALPHA).to_string(),
         2 | 3 => {
@@ -188,6 +193,17 @@ fn needle(rng: &mut Rng, h: &str) -> String {
         4 => "aa".to_string(),
         5 => format!("{}{}", h, "x"), // longer than the haystack
         6 => h.to_uppercase(),
+        7 | 8 => {
+            // a piece of the other-case form of the haystack: lines up with the haystack only through case mapping
+            let other = if rng.chance(1, 2) { h.to_lowercase() } else { h.to_uppercase() };
+            let cs: Vec<char> = other.chars().collect();
+            if cs.is_empty() {
+                return String::new();
+            }
+            let a = rng.below(cs.len());
+            let b = a + 1 + rng.below((cs.len() - a).min(3));
+            cs[a..b.min(cs.len())].iter().collect()
+        }
         _ => rstr(rng, 2),
     }
 }
